@@ -19,8 +19,8 @@ META = {
                  'specification) on a hand-written Gallina model + differential correspondence with the implementation',
     'design_ref': 'DESIGN.md section 4 C09',
     'theorems': ['C09_subset_partial', 'C09_refines_partial', 'C09_ok_iff', 'C09_error_exact', 'C09_subset_top_partial', 'C09_factory_fresh',
-                 'C09_v1_refuted_kwonly'],
-    'tables': [],
+                 'C09_v1_refuted_kwonly', 'C09_missing_source_tie'],
+    'tables': ['MissingFieldsAlg'],
     'level_text': ('Theorems proved in Coq for ALL class trees (any mix of required/default/default_factory/init=False fields, '
                    'nested dataclasses and lists of dataclasses, any depth) and ALL deletion subsets of a complete document at any '
                    'depth (no bound on the number of keys), for both engines, about an executable model of the generated '
